@@ -289,6 +289,18 @@ class Ref(object):
             for p in ps:
                 self.nodes[p].we = 0
             return "ok"
+        if op == "deleteu":
+            idx = {}
+            for p in unx_list(w[1]):
+                idx[p] = p if p in self.nodes else None
+            for p, n in idx.items():
+                if n is None:
+                    return "err other AttributeError"
+                self.nodes[p].we = 0
+            return "ok"
+        if op == "addruleram":
+            self.rules[unx(w[1])] = w[2]
+            return self.report(0, {})
         if op == "addprefix":
             p = unx(w[1])
             self.touch(p, mark=True)
